@@ -77,10 +77,14 @@ deriving DecidableEq, Repr, Inhabited
 def Arc.onTree (a : Arc) : Bool := a.flags % 2 == 1
 def Arc.fake (a : Arc) : Bool := a.flags / 2 % 2 == 1
 
-/-- `GcovBlock` without its counter: ids of incoming arcs (push order), ids of outgoing arcs
-(sorted by destination block), the lines kept by `read_lines`, their maximum. The block number
-is the position in `Func.blocks`. -/
+/-- `GcovBlock` without its counter: `no` = `GcovBlock.no`, the number `read_blocks` gave the block:
+its index WITHIN ITS BLOCKS RECORD (`for no in 0..length { push(GcovBlock::new(no)) }`), which is
+its position in `Func.blocks` only when the function has a single BLOCKS record – the compilers
+write exactly one; `add_line_count`/`get_line_count` key on `no`, everything else on the position;
+ids of incoming arcs (push order), ids of outgoing arcs (sorted by destination block), the lines
+kept by `read_lines`, their maximum. -/
 structure Block where
+  no : Nat := 0
   source : List Nat := []
   destination : List Nat := []
   lines : List Nat := []
@@ -205,7 +209,7 @@ def buildStep (g : Notes) (r : NRec) : Outcome Notes :=
     match g.funcs.getLast? with
     | none => ok g
     | some f =>
-      let f' : Func := { f with blocks := f.blocks ++ List.replicate n ({} : Block) }
+      let f' : Func := { f with blocks := f.blocks ++ (List.range n).map fun i => ({ no := i } : Block) }
       ok { g with funcs := replaceLast g.funcs f' }
   | .arcs src as =>
     match g.funcs.getLast? with
@@ -424,7 +428,8 @@ def stop (g : Notes) (st : State) : Outcome (List (Func × Cnt)) := stopGo g.ver
 
 /-! ## Line counts -/
 
-/-- `lines_to_block` (reader.rs 1132-1145): line ↦ block numbers, one entry per occurrence -/
+/-- `lines_to_block` (reader.rs 1132-1145): line ↦ block numbers (`block.no`), one entry per
+occurrence -/
 def linesToBlockLines (n : Nat) : List Nat → List (Nat × List Nat) → List (Nat × List Nat)
   | [], m => m
   | l :: ls, m =>
@@ -432,11 +437,11 @@ def linesToBlockLines (n : Nat) : List Nat → List (Nat × List Nat) → List (
       | some v => set m l (v ++ [n])
       | none => set m l [n])
 
-def linesToBlockGo : List Block → Nat → List (Nat × List Nat) → List (Nat × List Nat)
-  | [], _, m => m
-  | b :: bs, n, m => linesToBlockGo bs (n + 1) (linesToBlockLines n b.lines m)
+def linesToBlockGo : List Block → List (Nat × List Nat) → List (Nat × List Nat)
+  | [], m => m
+  | b :: bs, m => linesToBlockGo bs (linesToBlockLines b.no b.lines m)
 
-def linesToBlock (f : Func) : List (Nat × List Nat) := linesToBlockGo f.blocks 0 []
+def linesToBlock (f : Func) : List (Nat × List Nat) := linesToBlockGo f.blocks []
 
 /-- state of the cycle search: `GcovEdge.cycles`, `path`, `blocked`, `block_lists` -/
 structure CS where
@@ -568,13 +573,14 @@ def setCycles (arcs : List Arc) (cnt : Nat → Nat) : List Nat → (Nat → Nat)
 /-- fuel for the cycle search: every level of `look_for_circuit` blocks a block of the line -/
 def circuitFuel (f : Func) : Nat := f.blocks.length + 2
 
-/-- `get_line_count` (reader.rs 1060-1089) for a line that lives in the blocks `bs` -/
+/-- `get_line_count` (reader.rs 1060-1089) for a line that lives in the blocks `bs` (numbers `no`
+used as indices into `fun_blocks`, as the Rust does; the entry test is `block.no == 0`) -/
 def lineEntryStep (f : Func) (cnt : Nat → Nat) (bs : List Nat) (acc : (Nat → Nat) × Nat)
     (b : Nat) : Outcome ((Nat → Nat) × Nat) :=
   match f.blocks[b]? with
   | none => crash .idxBlock
   | some blk =>
-    (if b = 0 then sumCounters f.arcs cnt blk.destination acc.2
+    (if blk.no = 0 then sumCounters f.arcs cnt blk.destination acc.2
      else sumEntering f.arcs cnt bs blk.source acc.2).bind fun count =>
     (setCycles f.arcs cnt blk.destination acc.1).bind fun cyc => ok (cyc, count)
 
